@@ -469,9 +469,9 @@ func (g *wgen) fieldType(depth int) reflect.Type {
 	case x < g.pNested+0.27:
 		return reflect.TypeOf(complex128(0))
 	case x < g.pNested+0.285:
-		return pick(g.r, []reflect.Type{reflect.TypeOf([]*time.Time(nil)), reflect.TypeOf([]*url.URL(nil)), reflect.TypeOf([]interface{}(nil))})
+		return pick(g.r, []reflect.Type{reflect.TypeOf([]*time.Time(nil)), reflect.TypeOf([]*url.URL(nil)), reflect.TypeOf([]interface{}(nil)), reflect.TypeOf([]error(nil))})
 	case x < g.pNested+0.30:
-		return reflect.TypeOf((*interface{})(nil)).Elem() // (the wire names interface fields by their dynamic value only: interface{} fields)
+		return pick(g.r, []reflect.Type{reflect.TypeOf((*interface{})(nil)).Elem(), errorType, stringerType}) // interface-typed slots carry their static type on the wire
 	}
 	return g.scalarType()
 }
@@ -683,7 +683,7 @@ func (g *wgen) fill(v reflect.Value, depth int) {
 		if v.Type() == stringerType {
 			switch r.IntN(4) {
 			case 1:
-				v.Set(reflect.ValueOf(time.Duration(r.IntN(3))))
+				v.Set(reflect.ValueOf(&url.URL{Scheme: "h", Host: pick(r, []string{"a", "b"})}))
 			case 2:
 				v.Set(reflect.ValueOf((*time.Time)(nil)))
 			case 3:
